@@ -1,5 +1,20 @@
 package check
 
+import (
+	"strings"
+
+	"bngvc/govc"
+)
+
+// c08Select: every obligation of the pkg/radius units; of the pkg/pppoe units (verified in full under
+// C16) only the clauses about Accounting-Start / Accounting-Stop records.
+func c08Select(o *govc.Oblig) bool {
+	if !strings.HasPrefix(o.Func, "pppoe.") {
+		return true
+	}
+	return strings.Contains(o.ID, "acctSt")
+}
+
 // C08, clause "Records carry the session's own identifiers and report 64-bit
 // traffic counters exactly through the low-word/gigaword split" only. Merge the
 // Funcs / Trusted / Undecided entries into the full C08 definition.
@@ -7,19 +22,24 @@ func init() {
 	register(&PropDef{
 		ID:    "C08",
 		Title: "Accounting records carry the session's identifiers and exact 64-bit counters (clause of C08)",
-		Pkgs:  []string{"./pkg/radius"},
+		Pkgs:  []string{"./pkg/radius", "./pkg/pppoe"},
 		Funcs: []string{
 			"radius.Client.SendAccounting",
 			"radius.addMessageAuthenticator",
 			"radius.Client.getServer",
 			"radius.formatMAC",
+			// PPPoE side of "every started session is accounted to exactly one Stop, never for a session that was not started"
+			"pppoe.SessionTeardown.cleanup", "pppoe.SessionTeardown.sendAccountingStop",
+			"pppoe.Server.handleIPCPConfigAck", "pppoe.Server.handlePADT", "pppoe.Server.handleLCPTermRequest", "pppoe.Server.endSession", "pppoe.Server.expireSessions",
 		},
+		Select: c08Select,
 		Trusted: []string{
 			"engine library model layeh.com/radius: radius.New yields a packet without attributes; the generated setters rfcNNNN.X_Set/X_SetString/X_Add/X_Del record attribute number X_Type := value in ghost state (integer setters cannot fail; string and []byte setters fail and leave the packet unchanged beyond 253 octets; net.IP setters need an IPv4 address); (*Packet).Encode does not modify the packet; radius.Exchange snapshots the attributes of the packet it transmits (rad_sent_*) and does not modify program memory",
 			"trusted radius.Client.waitRateLimit: modifies nothing relevant (golang.org/x/time/rate.Limiter.Wait is external)",
 			"crypto/hmac.New returns a fresh hash object; context.CancelFunc values have no effect on modelled state",
 		},
 		Undecided: []string{
+			"PPPoE: nothing in pkg/pppoe issues an Accounting-Start (obligation acctStarts == 0 of Server.handleIPCPConfigAck / handlePAP, the places where a session becomes established), so PPPoE sessions are not accounted at all in this repository; the teardown component sends the Stop iff Session.AcctStarted, which only embedding code can set. Delivery, retry and crash recovery of that Stop are not under contract (SessionTeardown calls radius.Client.SendAccounting directly, not the AccountingManager)",
 			"the other clauses of C08 (when records are emitted, retry/queueing, interim scheduling) are not covered by these contracts",
 			"Calling-Station-Id: formatMAC's result is an uninterpreted fmt.Sprintf string, so only the call is checked, not its format",
 			"that AccountingManager copies the session's identifiers and counters into AcctRequest (accounting.go composite literals) is by inspection, not under contract",
@@ -30,6 +50,6 @@ func init() {
 			"req is non-nil; all 64-bit counter values are unconstrained",
 			"an absent Acct-*-Gigawords attribute means 0 (RFC 2869)",
 		},
-		Explanation: "SendAccounting is verified against a contract over the ghost record of the packet handed to radius.Exchange: Acct-Status-Type, NAS-Port, Acct-Session-Id, User-Name, NAS-Identifier, Class and Framed-IP-Address equal the request's fields; for Stop/Interim records Acct-Input/Output-Octets == value mod 2^32, Acct-Input/Output-Gigawords (or 0 when absent) == value div 2^32, hence gigawords*2^32 + octets == value for every uint64; packets, session time and terminate cause likewise; Start/On/Off records carry no counters. addMessageAuthenticator is shown to touch attribute 80 only. One obligation does not discharge and is genuine (replay C08_SendAccounting_identifier_dropped): the errors the string setters return for identifiers longer than 253 octets are discarded, so the record goes out without User-Name / Acct-Session-Id.",
+		Explanation: "PPPoE (clause 'exactly one Stop iff a Start was issued, never for a session that was not started'): SessionTeardown.cleanup issues exactly one Accounting-Stop iff the session left the table through this call, a RADIUS client is configured and Session.AcctStarted holds, and none when the session had already been ended (a second termination sends no second Stop); the PPPoE server's own termination paths (PADT, LCP Terminate-Request, authentication failure, idle timeout, shutdown) and its establishment path issue no accounting record at all. SendAccounting is verified against a contract over the ghost record of the packet handed to radius.Exchange: Acct-Status-Type, NAS-Port, Acct-Session-Id, User-Name, NAS-Identifier, Class and Framed-IP-Address equal the request's fields; for Stop/Interim records Acct-Input/Output-Octets == value mod 2^32, Acct-Input/Output-Gigawords (or 0 when absent) == value div 2^32, hence gigawords*2^32 + octets == value for every uint64; packets, session time and terminate cause likewise; Start/On/Off records carry no counters. addMessageAuthenticator is shown to touch attribute 80 only. One obligation does not discharge and is genuine (replay C08_SendAccounting_identifier_dropped): the errors the string setters return for identifiers longer than 253 octets are discarded, so the record goes out without User-Name / Acct-Session-Id.",
 	})
 }
